@@ -57,12 +57,18 @@ def main():
             print(f'MACHINERY-FAILURE: c18_replay does not build in configuration {r[0]}', file=sys.stderr)
             print(r[1], file=sys.stderr)
             return 2
+    aux = CR + '/target/c18aux.txt'
     if not build_only:
+        # value-directed seeds (states whose jump image has a special word pattern) computed by the main
+        # harness from the step matrix it extracts from the implementation
+        r = subprocess.run([ROOT + '/harness/target/release/mc', 'c18aux', aux], capture_output=True, text=True, env=env)
+        if r.returncode != 0 or not os.path.exists(aux):
+            open(aux, 'w').write('')
         for r in results:
             for name, dst in r:
-                procs[name] = subprocess.Popen([dst, str(depth), seed], stdout=subprocess.PIPE, stderr=subprocess.PIPE, text=True)
+                procs[name] = subprocess.Popen([dst, str(depth), seed, aux], stdout=subprocess.PIPE, stderr=subprocess.PIPE, text=True)
         # determinism self-check: one configuration is replayed twice (concurrently with the rest)
-        twin = subprocess.Popen([results[2][0][1], str(depth), seed], stdout=subprocess.PIPE, stderr=subprocess.PIPE, text=True)
+        twin = subprocess.Popen([results[2][0][1], str(depth), seed, aux], stdout=subprocess.PIPE, stderr=subprocess.PIPE, text=True)
     if build_only:
         print(f'c18_replay built in 8 configurations in {build_s:.1f}s')
         return 0
@@ -131,7 +137,7 @@ def main():
         'coverage': {
             'evaluations': n * len(names),
             'distinct_nontrivial': len(distinct),
-            'rule': 'items = every history up to the tier depth over {next_u32,next_u64,fill_bytes(0|3|5|9|17|block-3),jump,long_jump} from 4 seeds x 2 buffer offsets for the 19 seedable generator types, all byte-probe and pair-of-bits seeds, u64 arguments (alphabet + consecutive ranges), long runs, and JitterRng histories / single deviations at every reading / bursts of extreme probe deltas / test_timer patterns on scripted timers; each item is replayed in all 8 configurations; distinct_nontrivial = distinct item digests in the first configuration',
+            'rule': 'items = every history up to the tier depth over {next_u32,next_u64,fill_bytes(0|3|5|9|17|block-3),jump,long_jump} from 4 seeds x 2 buffer offsets for the 19 seedable generator types, all byte-probe and pair-of-bits seeds, u64 arguments (alphabet + consecutive ranges), long runs, value-directed seeds whose jump()/long_jump() image has a special word pattern, and JitterRng histories / single deviations at every reading / runs of 1..4097 consecutive stuck measurements / bursts of extreme probe deltas / test_timer patterns on scripted timers; each item is replayed in all 8 configurations; distinct_nontrivial = distinct item digests in the first configuration',
             'samples': [ref[0], ref[n // 2], ref[-1]],
             'configurations': names,
             'items_per_configuration': n,
@@ -158,7 +164,7 @@ def replay(path):
         for f in FEATS:
             name = f'{p}-{f or "plain"}'
             b = f'{CR}/target/bins/c18-{name}'
-            out = subprocess.run([b, str(v['depth']), str(v['seed'])], capture_output=True, text=True).stdout.splitlines()
+            out = subprocess.run([b, str(v['depth']), str(v['seed']), CR + '/target/c18aux.txt'], capture_output=True, text=True).stdout.splitlines()
             for l in out:
                 if l.rsplit(' ', 1)[0] == v['item']:
                     digs[name] = l.rsplit(' ', 1)[1]
